@@ -26,11 +26,17 @@ func profiles() map[string]Profile {
 	p.Any, p.Set, p.Shape, p.Visit, p.Dump, p.Image, p.Flush, p.MemOnly = 40, 12, 4, 4, 4, 2, 9, 10
 	m["C01a"] = p
 
+	p = Profile{Name: "C08f", Ops: 40, Set: 30, Del: 8, SetColl: 4, Flush: 8, Forge: 7, Dump: 3, Names: 2, Get: 4, MaxColls: 3}
+	// FlushRevert against the SPECIFICATION (stack of flushed states) rather than against the model of
+	// the scan, with values that forge a root record at their own offset (finding F17); one store, no
+	// re-open, no snapshot, so that the ghost stack of the driver is exact
+	m["C08f"] = p
+
 	p = base
 	p.Name = "C02"
 	p.MemOnly = 0
 	p.Flush, p.Reopen, p.SetColl, p.RmColl, p.Image, p.Dump = 10, 10, 3, 2, 3, 4
-	p.BigVals = true
+	p.BigVals, p.LongNames = true, true
 	m["C02"] = p
 
 	p = base
@@ -53,6 +59,7 @@ func profiles() map[string]Profile {
 	p.Name = "C08"
 	p.MemOnly = 5
 	p.Flush, p.Revert, p.Reopen, p.Dump, p.Image, p.SetColl, p.RmColl, p.Write, p.Snap, p.SnapRevert = 12, 8, 5, 5, 5, 2, 2, 1, 2, 2
+	p.LongNames = true
 	m["C08"] = p
 
 	p = base
@@ -74,6 +81,7 @@ func profiles() map[string]Profile {
 	p = base
 	p.Name = "C12"
 	p.SetColl, p.RmColl, p.Names, p.Dump, p.MaxColls, p.Reopen, p.Flush = 10, 6, 6, 5, 6, 6, 8
+	p.LongNames = true
 	m["C12"] = p
 
 	p = base
@@ -125,7 +133,7 @@ func profiles() map[string]Profile {
 	p.Name = "C19"
 	p.MemOnly = 0
 	p.Flush, p.Evict, p.Reopen, p.Visit, p.GetI, p.Min, p.Max, p.Exist, p.Len, p.Drop = 10, 8, 10, 8, 10, 5, 5, 5, 2, 30
-	p.Snap, p.SnapClose, p.BigVals = 2, 1, true
+	p.Snap, p.SnapClose, p.BigVals, p.Blocks, p.Iter = 2, 1, true, 4, 4
 	p.KeyOnlyReads = true
 	m["C19"] = p
 
